@@ -75,7 +75,7 @@ class C04(Prop):
             scripts = C.llit("(%d%%Z, %s)" % (num[i], C.llit(KIND[k] for k in s)) for i, s in h["fetch_scripts"].items())
             ob = C.llit("(%d%%Z, %d%%nat, %d%%nat)" % (n, h["invocations"].get(i, 0), h["fetch_attempts"].get(i, 0)) for i, n in num.items())
             items.append("check_history %s %s %s" % (lists, scripts, ob))
-        body = "\n".join(["From Coq Require Import ZArith List Bool.", "From IP Require Import Agent.Worker Agent.DedupCheck Server.ProxyCheck.", "Import ListNotations.",
+        body = "\n".join(["From Coq Require Import ZArith List Bool.", "From IP Require Import Agent.Worker Agent.DedupCheck Lib.Util.", "Import ListNotations.",
                           "Definition codes : list Z := " + C.llit(items) + ".",
                           "Definition verif_result : list Z := Eval vm_compute in (map (fun p => fst p * 10 + snd p)%Z (nonzero_indices 0%Z codes))."])
         txt, out, dt = C.eval_cases(ctx.work, "cases_c04", body)
